@@ -1,5 +1,5 @@
-// Counterexample found by mirsym/z3 for property C09, template det_hidden_labeling: |x, y| { infdrange([x, y], &(1..=2)), diseqfd(x, y), q != x } with parameters []: two runs of the same query that differ only in the iteration order of the hash-based stores (insertion order vs every iteration reversd) give different answer sequences: ['_.0 where (_.0 != 1)'] vs ['_.0 where (_.0 != 2)'] (answer 0 differs)
-// Replay: /verif/check C09 --replay /verif/replay/cases/C09-det_hidden_labeling_order_dependent.rs
+// Counterexample found by mirsym/z3 for property C14, template syn_empty_conjunction_clause: conde { q == p0, [], q == p1 } with parameters [2, -3]: reference answer 1 is missing from the engine's answers: the ground instance q = false is a solution that no engine answer covers
+// Replay: /verif/check C14 --replay /verif/replay/cases/C14-syn_empty_conjunction_clause_lost.rs
 #![allow(unused_imports, unused_variables, unused_mut)]
 use proto_vulcan::prelude::*;
 use proto_vulcan::lterm::LTerm;
@@ -104,14 +104,14 @@ fn replay() {
 }
 
 fn body() {
+    let p0: T = LTerm::from(2);
+    let p1: T = LTerm::from(-3);
     let query = proto_vulcan_query!(|q| {
-        |x, y| { infdrange([x, y], &(1..=2)), diseqfd(x, y), q != x }
+        conde { q == p0, [], q == p1 },
+        q == false
     });
-    let re = |s: String| { let mut o = String::new(); let mut it = s.chars().peekable();
-        while let Some(c) = it.next() { o.push(c); if c == '_' { if it.peek() == Some(&'.') { it.next(); while it.peek().map_or(false, |d| d.is_ascii_digit()) { it.next(); } } } } o };
-    let first: Vec<String> = query.run().take(LIMIT).map(|r| re(format!("{}", r.q))).collect();
-    for _ in 0..400 {
-        let again: Vec<String> = query.run().take(LIMIT).map(|r| re(format!("{}", r.q))).collect();
-        assert_eq!(first, again, "the same query produced two different answer sequences in one process");
+    for _run in 0..30 {
+    let n = query.run().take(LIMIT).count();
+    assert_eq!(n > 0, true, "q = false must be a solution");
     }
 }
